@@ -21,7 +21,7 @@ MOD = __name__
 
 RULE_TEXT = (
     "(A) every Rule call sequence up to length 4 (quick) / 5 (thorough) over a 16-call vocabulary (incl. empty list, "
-    "unknown name, regex without match), every LayerRule sequence up to length 6 / 7 (cut at the first raising call) and "
+    "unknown name, regex without match) and every sequence of length 5 (6) over a 9-call core vocabulary, every LayerRule sequence up to length 6 / 7 (cut at the first raising call) and "
     "every DiagramRule sequence up to length 4, each followed by assert_applies; plus every single deletion, duplication "
     "and adjacent transposition of every complete canonical chain. A specification automaton written from the property "
     "text classifies a history as must-error or no-claim; must-error histories have to raise a non-assertion error "
@@ -547,6 +547,25 @@ def exh_rule_hist(arg, stt, deadline) -> None:
             stt.record({"type": "rule-history", "seq": [list(o) for o in seq]}, res, enumerated=True, sample=(i % 4099 == 11))
 
 
+CORE_OPS = [("modules_that",), ("are_named", "r.a"), ("are_named", "r.b"), ("are_sub_modules_of", "r.a"), ("should",), ("should_not",),
+            ("import_modules_that",), ("be_imported_by_modules_except_modules_that",), ("import_anything",)]
+
+
+def exh_rule_hist_core(arg, stt, deadline) -> None:
+    """Longer histories over the core vocabulary (every position/verb/import-type/alias interaction)."""
+    first, length = arg
+    i = 0
+    for rest in product(CORE_OPS, repeat=length - 1):
+        seq = [CORE_OPS[first]] + list(rest)
+        i += 1
+        if RS.timed_out(deadline, i, 512):
+            stt.truncated = True
+            return
+        res = run_rule_history(seq)
+        res["labels"] = res["labels"][1:]
+        stt.record({"type": "rule-history", "seq": [list(o) for o in seq]}, res, enumerated=True, sample=(i % 9973 == 11))
+
+
 def _layer_dfs(prefix, max_len, stt, deadline, counter):
     for op in L_OPS:
         seq = prefix + [op]
@@ -620,6 +639,9 @@ def run(ctx) -> None:
     ops = RULE_OPS if quick else RULE_OPS_FULL
     ctx.exhaustive("rule-histories", MOD, "exh_rule_hist", [(i, lr, not quick) for i in range(len(ops))],
                    f"all Rule call sequences of length 1..{lr} over {len(ops)} calls, each followed by assert_applies")
+    cl = 5 if quick else 6
+    ctx.exhaustive("rule-histories-core-vocabulary", MOD, "exh_rule_hist_core", [(i, cl) for i in range(len(CORE_OPS))],
+                   f"all Rule call sequences of length exactly {cl} over the {len(CORE_OPS)}-call core vocabulary, each followed by assert_applies")
     ll = 6 if quick else 7
     m = len(L_OPS)
     ctx.exhaustive("layer-rule-histories", MOD, "exh_layer_hist", [((i, j), ll) for i in range(m) for j in range(m)],
